@@ -25,7 +25,7 @@ CFG = {
 
 META = {
     "text": "Symbolic index model plus view-vs-deep-copy differential over all slice bounds of small shapes (enumerated) and random nested compositions, for "
-            "every element type and both storages; ~25k (quick) / ~700k (thorough) view cases x ~35 operations each. Held on the views and operations "
+            "every element type and both storages; ~45k (quick) / ~4.3M (thorough) view cases x ~37 operations each. Held on the views and operations "
             "executed (view-class and per-operation counts in the evidence); deeper nestings and larger parents are sampled only.",
     "design_ref": "DESIGN.md section 3, C10",
     "note": "Trusted: the affine index model (vmodel) and the deep-copy builder in harness/c10; internal/snap comparison.",
